@@ -54,8 +54,8 @@ func Sched(t *simkit.Tape, o *simkit.Outcome, full bool) {
 	blocks := map[string]string{}
 	var processed []string
 	refRun, rerr := RunSim(work, tree, s.Argv(1), stdin, nil, 2, 0)
-	if rerr != nil || refRun.ExitErr != "" || refRun.Res.End != "main-exit" {
-		o.HarnessDoubt("reference run (-c 1) did not end normally: %v %v", rerr, refRun)
+	if rerr != nil || refRun.ExitErr != "" || !refRun.Ended() {
+		o.HarnessDoubt("reference run (-c 1) did not end normally: err=%v end=%q exit=%q note=%q steps=%d argv=%q", rerr, refRun.Res.End, refRun.ExitErr, refRun.Res.Note, refRun.Res.Steps, s.Argv(1))
 		return
 	}
 	o.Evals++
@@ -71,8 +71,8 @@ func Sched(t *simkit.Tape, o *simkit.Outcome, full bool) {
 		}
 		r, e := RunSim(work, tree, single.Argv(1), in, nil, 2, 0)
 		o.Evals++
-		if e != nil || r.ExitErr != "" || r.Res.End != "main-exit" {
-			o.HarnessDoubt("per-file reference run did not end normally: %v", e)
+		if e != nil || r.ExitErr != "" || !r.Ended() {
+			o.HarnessDoubt("per-file reference run did not end normally: %v %s %s", e, r.ExitErr, r.Res.End)
 			return
 		}
 		blocks[f] = string(r.Stdout)
@@ -159,7 +159,7 @@ func Sched(t *simkit.Tape, o *simkit.Outcome, full bool) {
 			o.Probe("main-returned-with-unfinished-worker")
 		}
 		switch r.Res.End {
-		case "main-exit":
+		case "main-exit", "os-exit":
 		case "deadlock":
 			o.Violate(P, "cli-deadlock", "cli-deadlock", "-c %d deadlocks under schedule #%d (no runnable task, main not finished) after %d steps\nargv=%v", s.C, k, r.Res.Steps, s.Argv(s.C))
 			continue
